@@ -15,6 +15,7 @@ import (
 
 	"github.com/pgavlin/dawn/runner"
 	"github.com/pgavlin/dawn/verifharness/core"
+	"github.com/pgavlin/dawn/verifharness/pj"
 )
 
 func init() {
@@ -799,6 +800,17 @@ func runRunner(c *core.Ctx, which string) {
 				Env: append(env, "VERIF_LIMIT="+fmt.Sprint(limit)), Died: died(limit, race)})
 		}
 	}
+	if which == "C04" {
+		// the same clause through real projects: dependency labels spelt in different legal ways,
+		// diamonds, always-builds; every label visited at most once per build
+		var pids []string
+		for i := 0; i < c.N(150, 3000); i++ {
+			if id := fmt.Sprintf("proj/%d", i); c.Want(id) {
+				pids = append(pids, id)
+			}
+		}
+		c.RunSharded(pids, core.ShardOpts{Mode: "c04proj", Workers: 12, Timeout: 20 * time.Minute})
+	}
 	races = countRaceReports(c, c.Scratch+"/race-"+which, which)
 	c.Extra("race_detector_reports", races)
 	c.Extra("limits", limits)
@@ -885,4 +897,57 @@ func dedupe(xs []string) []string {
 		}
 	}
 	return out
+}
+
+// ---- C04 at the project level: one evaluation per target and build through real dawn.Load/Run --
+
+func init() { registerCase("c04proj", c04ProjCase) }
+
+func c04ProjCase(c *core.Ctx, id string) {
+	g := &pj.Gen{R: c.Rand(id)}
+	dir := filepath.Join(c.Scratch, fmt.Sprintf("c04p-%d", os.Getpid()))
+	os.RemoveAll(dir)
+	defer os.RemoveAll(dir)
+	s := pj.NewSession(dir)
+	e := pj.NewEngine(s, g.Project(), g)
+	respelled := 0
+	for _, t := range e.P.AllTargets() {
+		respelled += len(t.Spell)
+	}
+	for step := 0; step < 5; step++ {
+		if step > 0 {
+			e.Edit([]string{"src-content", "atom-lit", "tgt-extra", "output-delete", "dep-add"}[g.R.IntN(5)])
+		}
+		always := g.R.IntN(4) == 0
+		st, res, _ := e.Build(pickTarget(e), pj.BuildOpt{Always: always})
+		if res.LoadErr != "" {
+			c.Violation(id, "", "C04: generated project does not load", map[string]any{"error": res.LoadErr})
+			return
+		}
+		visits := map[string]int{}
+		for _, ev := range res.Events {
+			if ev.Kind == "TargetUpToDate" || ev.Kind == "TargetEvaluating" {
+				visits[ev.Label]++
+			}
+		}
+		key := ""
+		if respelled > 0 {
+			key = fmt.Sprintf("%s/%d", id, step)
+		}
+		c.Eval(key)
+		c.Count("project_builds", 1)
+		c.Count("dependency_labels_written_in_non_canonical_form", int64(respelled))
+		for l, n := range visits {
+			if n > 1 {
+				c.Violation(id, "", "C04: a target was evaluated more than once in one build", map[string]any{"label": l, "times": n, "executed": st.Executed, "history": e.Script(), "build_file_root": e.P.RenderFile("pkg:")})
+				return
+			}
+		}
+		for _, f := range st.Findings {
+			if f.Kind == "executed-twice" {
+				c.Violation(id, "", "C04: a target body ran more than once in one build", map[string]any{"finding": f, "history": e.Script()})
+				return
+			}
+		}
+	}
 }
